@@ -495,7 +495,50 @@ func wrapExternal(name string, f externalFn) externalFn {
 	}
 }
 
-func initStdGlobals(i *interpreter) {}
+func initStdGlobals(i *interpreter) {
+	p := i.prog.ImportedPackage("os")
+	if p == nil {
+		return
+	}
+	for _, n := range []string{"Stdin", "Stdout", "Stderr"} {
+		if g, ok := p.Members[n].(*ssa.Global); ok {
+			if cell, ok := i.globals[g]; ok {
+				*cell = fileValue(&mhandle{path: "/dev/" + strings.ToLower(n)})
+			}
+		}
+	}
+}
+
+// writeTo appends s to the writer w (an interface value): the process's
+// stdout/stderr, a *bytes.Buffer or a *strings.Builder.
+func writeTo(fr *frame, w value, s string) {
+	it, ok := w.(iface)
+	if !ok || it.t == nil {
+		panic(unsupported("Fprint to nil writer"))
+	}
+	switch it.t.String() {
+	case "*os.File":
+		h := handleOf(it.v)
+		switch h.path {
+		case "/dev/stdout":
+			fr.i.ex.stdout(s)
+		case "/dev/stderr":
+			fr.i.ex.fs().stderr.WriteString(s)
+		default:
+			externals["(*os.File).Write"](fr, []value{it.v, s})
+		}
+	case "*bytes.Buffer":
+		externals["(*bytes.Buffer).WriteString"](fr, []value{it.v, s})
+	case "*strings.Builder":
+		externals["(*strings.Builder).WriteString"](fr, []value{it.v, s})
+	default:
+		if m := lookupMethodByName(fr.i, it.t, "Write"); m != nil && m.Blocks != nil {
+			call(fr.i, nil, 0, m, []value{it.v, toByteValues(s)})
+			return
+		}
+		panic(unsupported("Fprint to writer of type %s", it.t))
+	}
+}
 
 func init() {
 	for k, v := range map[string]externalFn{
